@@ -30,6 +30,9 @@ type Scenario struct {
 	QuickBound *int
 	// QuickMin overrides Opts.MinBound in the quick tier when set.
 	QuickMin *int
+	// Shards > 1 splits the scenario's search into that many work units
+	// (subtrees below the first deviation are partitioned by hash).
+	Shards int
 }
 
 // ScenarioResult is what a shard reports for one scenario.
@@ -90,6 +93,15 @@ func Run(t *testing.T, scenarios []Scenario) {
 		}
 		if tier != "thorough" && s.QuickBound != nil {
 			s.Opts.Bound = *s.QuickBound
+		}
+		if s.Shards > 1 {
+			for k := 0; k < s.Shards; k++ {
+				u := s
+				u.Name = fmt.Sprintf("%s #%d/%d", s.Name, k, s.Shards)
+				u.Opts.Shard, u.Opts.Shards = k, s.Shards
+				sel = append(sel, u)
+			}
+			continue
 		}
 		sel = append(sel, s)
 	}
